@@ -49,7 +49,10 @@ Effect(e) ==
 \* deliver next is sitting in the ring.
 LostWakeupSig(e) == /\ e.a = "Quiesce" /\ e.mode = "waiter" /\ e.peek
                     /\ e.cg = "cond.wake" /\ ~e.cen /\ ~e.cancelled /\ e.liveAtRidx
-Sig(e) == IF LostWakeupSig(e) THEN "LostWakeupSig" ELSE ""
+\* a Close that returns while a returned Write has been neither delivered nor reported: that message will never reach
+\* the wrapped writer - the first sentence of C12 as well as the accounting clause of C11
+Undelivered(e) == e.a = "CloseRet" /\ Len(delivered) + alerts < Cardinality(returned)
+Sig(e) == IF LostWakeupSig(e) THEN "LostWakeupSig" ELSE IF Undelivered(e) THEN "Undelivered" ELSE ""
 
 TNext ==
   /\ l <= Len(TraceLog) /\ l' = l + 1
